@@ -109,6 +109,35 @@ CHECKS = {
             'private copies. The binding self-test (corrupted digest, dropped event, changed result must be rejected) runs in '
             'every check.',
             'trace validation by TLC against a TLA+ purity specification + TLC-generated plane histories replayed into lentil'),
+    'C13': ('model_checking',
+            'Spectrum!BinOp defines a binary operation on the piecewise-linear meaning of both operands (right operand expressed in the '
+            'left one\'s unit, equally spaced grid over the union range, op of interpolated-or-fill values) over exact rationals. lentil '
+            'runs each seeded pair (all range relations, uniform and non-uniform grids, operands written independently in um/nm/angstrom, '
+            'four operators, sampling min/left/right/float, fills); TLC judges the grid the implementation chose and computes every '
+            'value; commutativity, unit independence, freshness of the result and integrity of the operands are checked on the objects.',
+            'DESIGN.md 5 C13',
+            'Trusted: harness/spectra.py. Grid points equal to an operand range end are float ties on grids that are not exact in binary '
+            'floating point (counted in evidence); quadratic/cubic interpolants and metre-unit operands (32-bit rationals) are outside the model.',
+            'exact rational semantics in TLA+ evaluated by TLC as oracle'),
+    'C14': ('model_checking',
+            'Unit factors are decimal exponents and flux conversions (hc/lambda)^p 10^q from potentials in Spectrum.tla; TLC checks '
+            'composition/identity/round trips for all ordered triples (exhaustive) and ThmToWave (integral of a density, values of a '
+            'unitless spectrum, inverse) on rational spectra, and emits the tables and converted spectra. All 16+9 conversion cells, '
+            'their compositions, every Spectrum.to path of length <= 2 (3: sampled/all) from the 16 unit states and Planck radiance / '
+            'exitance in all 12 unit pairs are compared.',
+            'DESIGN.md 5 C14',
+            'Trusted: float64 evaluation of 10^k (hc/lambda)^p with the module\'s own H, C. Wien and Stefan-Boltzmann are numeric leaves '
+            '(checked to 1e-4, outside the model).',
+            'unit algebra model-checked exhaustively by TLC; tables and exact conversions as oracle'),
+    'C15': ('model_checking',
+            'Trapezoid integration and binning are evaluated exactly by TLC (with additivity and linearity theorems on every case). '
+            'Seeded programs of crop/trim/pad/append/resample/to on real spectra (dyadic data, failure paths included) are recorded '
+            'with the exact rational state before and after each call or the exception, and validated by TLC against Trace_C15: '
+            'well-formedness after every event, retained samples, closed-range crop, trim bounds, pad values/ends, no half-applied change.',
+            'DESIGN.md 5 C15',
+            'Trusted: recorder in drivers/c15.py (float -> rational projection with off-lattice detection). Bounds equal to a sample are '
+            'only used on states whose floats are exact. Whether append/pad/resample accept a call is not part of the statement.',
+            'trace validation by TLC + exact rational oracle'),
     'C20': ('model_checking',
             'Geometry.tla defines pad/crop (2-D and cubes), sub-array, bounding box, bounding slice with pad and clipping, slice '
             'offset, rebin, centroid (exact rational), mesh, the half-turn / mirror / translation index maps of drawn shapes and '
